@@ -320,11 +320,12 @@ Lemma find_name_nm : forall d d' name n, nm d' = nm d -> find_name d' name n = f
 Proof. intros d d' name n E. induction n as [|n IH]; cbn [find_name]; [reflexivity|]. now rewrite E, IH. Qed.
 
 Lemma remove_mid : forall d name, let i := find_name d name (nf d) in
-  i <> 0 -> i <> nf d -> S i <> nf d -> remove d name = (remove_index d i, ROk).
+  2 <= i -> i <> nf d -> S i <> nf d -> remove d name = (remove_index d i, ROk).
 Proof.
-  intros d name i H0 H1 H2. unfold remove. fold i.
+  intros d name i H0 H1 H2. unfold remove, remove_g. fold i.
   destruct (Nat.eqb_spec i 0); [lia|]. destruct (Nat.eqb_spec i (nf d)); [lia|].
-  destruct (Nat.eqb_spec (S i) (nf d)); [lia|]. reflexivity.
+  destruct (Nat.eqb_spec (S i) (nf d)); [lia|]. destruct (Nat.eqb_spec i 1); [lia|].
+  rewrite andb_false_r. reflexivity.
 Qed.
 
 Lemma delete_cases : forall d name,
